@@ -200,4 +200,57 @@ theorem identity_shortcut_breaks :
     simp [stepShortcut, step, demoObj, demoCompute, upd] at this
   · exact (assign_static_coherent _ _ _ (by simp [step, demoObj])).1
 
+/-! ## methods that stop early (exception, early return) -/
+
+/-- the safety check is closed under prefixes: a method that raises or returns after some of its
+effects has performed a prefix of the extracted list -/
+theorem safe_take (clearing deps : List Name) :
+    ∀ (l : List Eff) (e : Bool) (k : Nat), safe clearing deps e l = true → safe clearing deps e (l.take k) = true := by
+  intro l
+  induction l with
+  | nil => intro e k h; simp [safe]
+  | cons x xs ih =>
+    intro e k h
+    cases k with
+    | zero => simp [safe]
+    | succ k =>
+      simp only [List.take_succ_cons]
+      cases x with
+      | assign n =>
+        simp only [safe] at h ⊢
+        split
+        · rename_i hn; simp only [hn, if_true] at h; exact ih true k h
+        · rename_i hn
+          simp only [hn, if_false, Bool.and_eq_true] at h ⊢
+          exact ⟨h.1, ih e k h.2⟩
+      | mutate n =>
+        simp only [safe, Bool.and_eq_true] at h ⊢
+        exact ⟨h.1, ih e k h.2⟩
+      | clear => simp only [safe] at h ⊢; exact ih true k h
+      | read p => simp only [safe] at h ⊢; exact ih false k h
+
+/-! ## two live handles sharing one attribute object
+
+A ray path stores the very array object its tracer holds (`path.from_point is tracer.from_point`).
+`tracer.from_point += d` mutates that array in place and then goes through the TRACER's
+`__setattr__` only: the tracer's cache is cleared, the path's is not, although the path's
+attribute changed as well. -/
+
+/-- in-place mutation of an attribute object shared by two handles, followed by the assignment on
+the first handle only -/
+def sharedAugAssign (compute : Name → (Name → Val) → Val) (a b : Obj) (n : Name) (f : Val → Val) : Obj × Obj :=
+  (step compute (step compute a (.mutate n f)) (.assign n (f (a.attrs n))), step compute b (.mutate n f))
+
+theorem shared_attribute_breaks :
+    let a := step demoCompute demoObj (.read "values")
+    let b := step demoCompute demoObj (.read "values")
+    Coherent demoCompute a ∧ Coherent demoCompute b ∧
+    Coherent demoCompute (sharedAugAssign demoCompute a b "_buffers" (· + 1)).1 ∧
+    ¬ Coherent demoCompute (sharedAugAssign demoCompute a b "_buffers" (· + 1)).2 := by
+  refine ⟨read_coherent _ _ (coherent_of_empty (fun _ => rfl)), read_coherent _ _ (coherent_of_empty (fun _ => rfl)), ?_, ?_⟩
+  · exact (assign_static_coherent _ _ _ (by simp [step, demoObj])).1
+  · intro h
+    have := h "values" 0 (by simp [sharedAugAssign, step, demoObj, demoCompute])
+    simp [sharedAugAssign, step, demoObj, demoCompute, upd] at this
+
 end Lazy
